@@ -141,6 +141,14 @@ def build(
         ordered = [used[name] for name in inputs if name in used]
         del model_proto.graph.input[:]
         model_proto.graph.input.extend(ordered)
+        # Default values of the surviving inputs (initializers of the same names) follow the same order.
+        position = {info.name: i for i, info in enumerate(ordered)}
+        defaults = sorted(
+            model_proto.graph.initializer,
+            key=lambda init: position.get(init.name, len(position)),
+        )
+        del model_proto.graph.initializer[:]
+        model_proto.graph.initializer.extend(defaults)
         # ``to_onnx_model`` checked the model before its inputs were re-listed: check what is returned.
         onnx.checker.check_model(model_proto)
 
